@@ -51,6 +51,7 @@ US = "\x1f"
 FINDING_ESCAPE = "C19-copy-subdir-escape"
 FINDING_WIPE = "C19-wipe-failure-ignored"
 FINDING_GLINK = "C19-graphdir-stale-link"
+FINDING_SUBPAGE = "C19-ordered-subpage-escape"
 
 sys.dont_write_bytecode = True
 
@@ -210,6 +211,35 @@ PAGESETS = {
                 "sub/index.md": "---\ntitle: S\n---\nx", "sub/extra.txt": "e"},
 }
 
+# `ordered_subpage` entries are user input: paths, not only names of the directory listing.  Values of the form
+# ("->", target) are symbolic links.  <work>/shared_pages (a section shared between projects: index.md, install.md,
+# data.txt, inner/) always exists; `<page_dir>/sub/../../../x` is <work>/x.
+PAGESETS.update({
+    # nested entries, `..` inside the page directory, missing ones, a non-page file, an absolute entry ({P} = page_dir)
+    "sub_paths": {"index.md": "---\ntitle: T\nordered_subpage: sub\n    sub/q.md\n    sub/deep\n    img/../sub/deep/d.md\n"
+                              "    nosuch/x.md\n    sub/../note.txt\n    sub/data.bin\n    {P}/other\n    sub/deep/\n---\nhello\n",
+                  "sub/index.md": "---\ntitle: S\ncopy_subdir: pics\n---\nx", "sub/q.md": "---\ntitle: Q\n---\nq",
+                  "sub/deep/index.md": "---\ntitle: D\n---\nd", "sub/deep/d.md": "---\ntitle: DD\n---\nd", "sub/data.bin": b"\x00\x01",
+                  "sub/pics/p.png": "p", "note.txt": "n", "img/x.png": "png", "other/index.md": "---\ntitle: O\n---\no",
+                  "other/o.txt": "o"},
+    # entries that leave the page directory: a directory, a page file and a plain file of <work>/shared_pages
+    "sub_escape": {"index.md": "---\ntitle: T\nordered_subpage: sub\n    sub/../../../shared_pages\n"
+                               "    sub/../../../shared_pages/install.md\n    sub/../../../shared_pages/data.txt\n---\nhello\n",
+                   "sub/index.md": "---\ntitle: S\n---\nx", "sub/q.md": "---\ntitle: Q\n---\nq"},
+    # ... from a sub-page, by an absolute path ({W} = <work>), and one level only (lands inside the output directory)
+    "sub_escape_abs": {"index.md": "---\ntitle: T\nordered_subpage: sub\n    sub/../../images\n---\nhello\n",
+                       "sub/index.md": "---\ntitle: S\nordered_subpage: q.md\n    {W}/shared_pages\n---\nx",
+                       "sub/q.md": "---\ntitle: Q\n---\nq"},
+    # a section shared with another project, linked into the page directory; a linked page file; a dangling link
+    "linked_section": {"index.md": "---\ntitle: T\n---\nhello\n", "guide": ("->", "../../shared_pages"),
+                       "linked.md": ("->", "../../shared_pages/install.md"), "gone.md": ("->", "../../shared_pages/nothing.md"),
+                       "sub/index.md": "---\ntitle: S\nordered_subpage: inner\n    q.md\n---\nx", "sub/q.md": "---\ntitle: Q\n---\nq",
+                       "sub/inner": ("->", "../../../shared_pages/inner")},
+    # ... and entries that go through the link
+    "linked_paths": {"index.md": "---\ntitle: T\nordered_subpage: guide\n    guide/inner\n    guide/install.md\n---\nhello\n",
+                     "guide": ("->", "../../shared_pages"), "sub/index.md": "---\ntitle: S\n---\nx"},
+})
+
 # copy_subdir items whose target lies *near* the output directory <O> = <parent>/<name> without being inside it
 # (a page at location <loc> copies to <O>/page/<loc>/<item>): siblings whose name extends / truncates <name>,
 # <O> itself, its parent, a directory called <name> somewhere else.  {N} = <name>, {n} = <name> without its last
@@ -224,7 +254,7 @@ def near_fill(pat: str, O: Path) -> str:
 
 
 def pageset(scn: dict, O: Path | None):
-    """The page directory of the scenario (relative file name -> content); None = no page_dir."""
+    """The page directory of the scenario (relative file name -> content or ("->", link target)); None = no page_dir."""
     if scn["pages"] != "near_miss":
         return PAGESETS[scn["pages"]]
     O = O or Path("/doc")
@@ -253,9 +283,21 @@ def build_sandbox(sb: Path, scn: dict) -> dict:
     """Lay the scenario out under sb; returns paths."""
     W = sb / "work"
     proj = W / "proj"
-    for d in (proj, W / "lib", W / "elsewhere", W / "real", W / "victim" / "inner", proj / "media" / "m2", proj / "images", proj / "gexist"):
+    for d in (proj, W / "lib", W / "elsewhere", W / "real", W / "victim" / "inner", proj / "media" / "m2", proj / "images", proj / "gexist",
+              W / "shared_pages" / "inner", sb / "far" / "lib2" / "sub"):
         d.mkdir(parents=True, exist_ok=True)
     (W / "lib" / "c_lib.f90").write_text("subroutine libsub()\nend subroutine\n")
+    # a source directory two levels above the project file, with file names that occur more than once (also in ./src)
+    (sb / "far" / "lib2" / "util.f90").write_text("subroutine far_util()\nend subroutine\n")
+    (sb / "far" / "lib2" / "sub" / "util.f90").write_text("subroutine far_sub_util()\nend subroutine\n")
+    (sb / "far" / "lib2" / "a.f90").write_text("subroutine far_a()\nend subroutine\n")
+    (sb / "far" / "lib2" / "sub" / "only.f90").write_text("subroutine far_only()\nend subroutine\n")
+    # a documentation section shared between projects (input: must stay as it is)
+    (W / "shared_pages" / "index.md").write_text("---\ntitle: Shared guide\n---\nshared\n")
+    (W / "shared_pages" / "install.md").write_text("---\ntitle: Installing\n---\nhow\n")
+    (W / "shared_pages" / "data.txt").write_text("data\n")
+    (W / "shared_pages" / "inner" / "index.md").write_text("---\ntitle: Inner\n---\ninner\n")
+    (W / "shared_pages" / "inner" / "pic.png").write_text("png")
     (W / "victim" / "important.txt").write_text("do not touch\n")
     (W / "victim" / "inner" / "deep.txt").write_text("deep\n")
     (W / "real" / "keep.txt").write_text("keep\n")
@@ -301,10 +343,15 @@ def build_sandbox(sb: Path, scn: dict) -> dict:
         opts["favicon"] = "./fav.png"
     if pages is not None:
         opts["page_dir"] = "./pages"
+        (proj / "pages").mkdir(parents=True, exist_ok=True)
+        pdir = os.path.realpath(proj / "pages")
         for rel, body in pages.items():
             p = proj / "pages" / rel
             p.parent.mkdir(parents=True, exist_ok=True)
-            p.write_bytes(body if isinstance(body, bytes) else body.encode())
+            if isinstance(body, tuple):
+                os.symlink(body[1], p)
+            else:
+                p.write_bytes(body if isinstance(body, bytes) else body.replace("{P}", pdir).replace("{W}", str(W)).encode())
         if scn["pages"] == "proj_copy":
             opts["copy_subdir"] = ["img", "nosuchdir"]
         if scn["pages"] == "near_miss":
@@ -527,6 +574,90 @@ def walk_listing(src: Path) -> list[str] | None:
 
 
 # ----------------------------------------------------------------------------------------------
+# the page tree as *input*: what lies on disk and what the metadata says (no FORD page object involved)
+# ----------------------------------------------------------------------------------------------
+
+
+def md_meta(path: str):
+    """(ok, ordered_subpage entries, copy_subdir items) of a file read the way `PageNode.__init__` reads it:
+    FORD's own metadata reader (C15/C17 territory), nothing of the page tree."""
+    from textwrap import dedent
+
+    common.import_ford()
+    from ford.settings import EntitySettings
+    from ford.utils import meta_preprocessor
+
+    try:
+        with common.quiet():
+            meta, _text = meta_preprocessor(dedent(Path(path).read_text("utf-8")))
+            m = EntitySettings.from_markdown_metadata(meta, Path(path).stem)
+        return (m.title is not None, [str(x) for x in m.ordered_subpage], [str(x) for x in m.copy_subdir])
+    except Exception:
+        return (False, [], [])
+
+
+def page_input(root: Path, page_dir: str, proj_copy: list[str], skip: list[str]) -> tuple[list[str], list]:
+    """Fields describing everything below `root` (physical paths; sub-trees in `skip` left out) as the model's
+    `PageIn`: directories with their sorted listing, regular files (with metadata when they can be pages),
+    symbolic links with the physical path they point to; the ancestors of `root` as bare directories.
+    Also returns [(directory of an index.md, its ordered_subpage entries)] for the classification."""
+    root = str(root)
+    f = [US.join(["pdir", page_dir]), US.join(["pproj"] + proj_copy)]
+    orders = []
+    anc = os.path.dirname(root)
+    while True:
+        f.append(US.join(["pnode", anc, "d"]))
+        if anc == "/":
+            break
+        anc = os.path.dirname(anc)
+    as_page = set()  # regular files reached under an `.md` name through a link
+    links = []
+    for dirpath, dirnames, filenames in os.walk(root, followlinks=False):
+        dirnames[:] = [d for d in dirnames if not any(under(os.path.join(dirpath, d), k) for k in skip)]
+        for n in dirnames + filenames:
+            p = os.path.join(dirpath, n)
+            if os.path.islink(p):
+                t = os.path.realpath(p)
+                links.append((p, t))
+                if n.endswith(".md") and os.path.isfile(t):
+                    as_page.add(t)
+    for dirpath, dirnames, filenames in os.walk(root, followlinks=False):
+        dirnames[:] = [d for d in dirnames if not any(under(os.path.join(dirpath, d), k) for k in skip)]
+        f.append(US.join(["pnode", dirpath, "d"] + sorted(os.listdir(dirpath))))
+        for n in filenames:
+            p = os.path.join(dirpath, n)
+            if os.path.islink(p):
+                continue
+            if n.endswith(".md") or p in as_page:
+                ok, ordered, copy = md_meta(p)
+                f.append(US.join(["pnode", p, "m", "1" if ok else "0", str(len(ordered))] + ordered + copy))
+                if n == "index.md" and ordered:
+                    orders.append((dirpath, ordered))
+            else:
+                f.append(US.join(["pnode", p, "f"]))
+    for p, t in links:
+        f.append(US.join(["plink", p, t]))
+    return f, orders
+
+
+def subpage_escape_regions(orders: list, page_dir: str, O) -> list[str]:
+    """The known class C19-ordered-subpage-escape, decided from the input: an `ordered_subpage` entry of an
+    index.md that, joined lexically to the directory of that file, normalises to a path outside the page
+    directory; the page (and everything below it) is then placed at <O>/page/<relpath(.., page_dir)>."""
+    res = []
+    for d, ordered in orders:
+        for e in ordered:
+            if e[:1] == "." or e[-1:] == "~":
+                continue
+            t = os.path.normpath(os.path.join(d, e))
+            if under(t, page_dir):
+                continue
+            loc = t if os.path.isdir(t) else os.path.dirname(t)
+            res.append(os.path.normpath(os.path.join(str(O), "page", os.path.relpath(loc, page_dir))))
+    return res
+
+
+# ----------------------------------------------------------------------------------------------
 # running the real code
 # ----------------------------------------------------------------------------------------------
 
@@ -544,6 +675,7 @@ def run_ford(proj_file: Path, rec: Recorder):
     def spy(self):
         captured["docs"] = self
         captured["site"] = extract_site(self)
+        captured["pages"] = real_pages(self)
         return orig(self)
 
     res = {"rc": None, "exc": None, "settings": None, "phase": "settings"}
@@ -573,7 +705,19 @@ def run_ford(proj_file: Path, rec: Recorder):
         fo.Documentation.writeout = orig
         os.chdir(cwd)
     res["site"] = captured.get("site")
+    res["pages"] = captured.get("pages")
     return res
+
+
+def loc_key(location) -> str:
+    """`PageNode.location` as components joined by `/` (`.` is the empty string)"""
+    return "/".join(Path(location).parts)
+
+
+def real_pages(docs) -> list[list]:
+    """The page tree the real run works with: (location, output stem, copy_subdir, files) per node, in order."""
+    return [[loc_key(p.obj.location), p.obj.filename.stem, [str(x) for x in p.obj.copy_subdir], [str(x) for x in p.obj.files]]
+            for p in docs.pagetree]
 
 
 def extract_site(docs) -> list[str]:
@@ -593,16 +737,20 @@ def extract_site(docs) -> list[str]:
         f.append(US.join(["list", page.out_page]))
     if data["incl_src"]:
         for src in project.allfiles:
-            f.append(US.join(["srcfile", src.name]))
+            f.append(US.join(["srcfile", str(src.path)]))  # where the file is; the name of the copy is the model's business
+    seen = set()
     for page in docs.pagetree:
+        # listings of the directories that `copy_subdir` items name (by location and item); which pages there are,
+        # where they go and which files they copy is computed by the model from the page directory itself
         node = page.obj
-        f.append(US.join(["page", str(node.location), node.filename.stem]))
         from_path = data["page_dir"] / node.location
         for item in node.copy_subdir:
+            key = (loc_key(node.location), str(item))
+            if key in seen:
+                continue
+            seen.add(key)
             toks = walk_listing(from_path / item)
-            f.append(US.join(["pcopy", str(item), "0" if toks is None else "1"] + (toks or [])))
-        for item in node.files:
-            f.append(US.join(["pfile", str(item)]))
+            f.append(US.join(["ptree", key[0], key[1], "0" if toks is None else "1"] + (toks or [])))
     gm = docs.graphs
     if data["graph"] and gm.save_graphs and fo.graphviz_installed:
         names: list[str] = []
@@ -744,7 +892,7 @@ def escape_targets(scn, lay) -> list[str]:
     pages = pageset(scn, lay["O"]) or {}
     res = []
     for rel, body in pages.items():
-        if not rel.endswith(".md") or isinstance(body, bytes):
+        if not rel.endswith(".md") or not isinstance(body, str):
             continue
         m = re.search(r"^copy_subdir:(.*(?:\n    .*)*)", body, re.M)
         if not m:
@@ -791,6 +939,10 @@ def classify_one(scn, lay, r, f) -> str | None:
     targets = escape_targets(scn, lay)
     if targets and all(any(under(p, t) for t in targets) for p in paths):
         return FINDING_ESCAPE
+    # an `ordered_subpage` entry that leaves the page directory: the page and what is below it are placed outside
+    regions = [t for t in subpage_escape_regions(lay.get("orders") or [], lay.get("page_dir") or "/", O) if not under(t, O)]
+    if regions and all(any(under(p, t) for t in regions) for p in paths):
+        return FINDING_SUBPAGE
     return None
 
 
@@ -829,8 +981,10 @@ def gen_scenarios(rng: random.Random, n: int) -> list[dict]:
             src = ["./src", "../lib"]
         elif out == "above_src_symlink":
             src = ["../lnk/rsrc"]
-        elif rng.random() < 0.2:
-            src = ["./src", "../lib"]
+        elif k >= len(outs) and rng.random() < 0.4:
+            # several source directories; one two levels above the project file, holding file names that occur
+            # twice in it and once more in ./src
+            src = rng.choice([["./src", "../lib"], ["./src", "../../far/lib2"], ["../../far/lib2"], ["../../far/lib2/sub", "./src"]])
         graph = rng.random() < 0.6
         scn = {
             "id": k, "out": out, "src": src,
@@ -838,7 +992,7 @@ def gen_scenarios(rng: random.Random, n: int) -> list[dict]:
             "graph": graph, "search": rng.random() < 0.35, "incl_src": rng.random() < 0.7,
             "externalize": rng.random() < 0.5, "media": rng.choice([0, 1, 1, 2]), "css": rng.random() < 0.5,
             "mathjax": rng.choice([0, 1, 2]), "favicon": rng.random() < 0.4,
-            "pages": pages[(k * 3) % len(pages)] if k < 2 * len(pages) else rng.choice(pages),
+            "pages": pages[(k * 5 + 3) % len(pages)] if k < 2 * len(pages) else rng.choice(pages),
             "pre_out": rng.choice(["absent", "dir", "dir", "file"]), "srcset": rng.randrange(len(SRCSETS)),
             "links": (1, 2, 0)[k % 3] if k < 12 else rng.choice([0, 1, 1, 2]),
         }
@@ -882,6 +1036,17 @@ def run_scenario(scn: dict, base: Path, tables: dict, fault_at: int | None = Non
         lay["G"] = Path(os.path.realpath(lay["proj"] / lay["opts"]["graph_dir"]))
     before = snapshot(sb)
     O, G = lay["O"], lay["G"]
+    pin, orders, page_dir = None, [], None
+    if "page_dir" in lay["opts"]:
+        page_dir = os.path.realpath(lay["proj"] / lay["opts"]["page_dir"])
+        proj_copy = [os.path.realpath(lay["proj"] / x) for x in lay["opts"].get("copy_subdir", [])]
+        # inputs do not change between the runs of one sandbox (if a run changes them the oracle objects)
+        cache = reuse.setdefault("pin_cache", {}) if reuse is not None else {}
+        if "pin" not in cache:
+            cache["pin"] = page_input(sb, page_dir, proj_copy, [str(O), str(lay["W"] / "published")])
+        pin, orders = cache["pin"]
+        lay["pin_cache"] = cache
+    lay["page_dir"], lay["orders"] = page_dir, orders
     rec = Recorder(sb, fault_at)
     res = run_ford(lay["proj"] / "proj.md", rec)
     after = snapshot(sb)
@@ -894,7 +1059,7 @@ def run_scenario(scn: dict, base: Path, tables: dict, fault_at: int | None = Non
                 if v[0] == "l" and ((under(p, O) and p != str(O)) or (G is not None and under(p, G) and p != str(G)))]
     fs = SnapFS(before)
     oldlinks = [(p, t, fs.kind(t) == "d" or (not under(t, sb) and os.path.isdir(t)), k) for p, t, _d, k in oldlinks]
-    reqs = [model_request(v, scn, lay, before, res["site"], tables, oldlinks) for v in ("repaired", "asIs")]
+    reqs = [model_request(v, scn, lay, before, res["site"], tables, oldlinks, pin) for v in VARIANTS]
     return {"scn": scn, "lay": lay, "rec": rec, "res": res, "before": before, "after": after, "reqs": reqs,
             "stale": stale, "oldlinks": oldlinks}
 
@@ -914,7 +1079,13 @@ class SnapFS:
         return e[0]
 
 
-def model_request(variant, scn, lay, pre, site, tables, oldlinks=()):
+# (page-level copy_subdir guard, ordered_subpage guard of get_page_tree): the code with both repairs, with the first
+# only, with neither - which one the implementation is, is decided at run time from its behaviour
+VARIANTS = [("repaired", "guard"), ("repaired", "asIs"), ("asIs", "asIs")]
+VARIANT_NAMES = ["copy_subdir-guard+ordered_subpage-guard", "copy_subdir-guard", "unguarded"]
+
+
+def model_request(variant, scn, lay, pre, site, tables, oldlinks=(), pin=None):
     W, proj, O, G = lay["W"], lay["proj"], lay["O"], lay["G"]
     fs = SnapFS(pre)
     sb = str(lay["sb"])
@@ -930,7 +1101,7 @@ def model_request(variant, scn, lay, pre, site, tables, oldlinks=()):
         return k
 
     opts = lay["opts"]
-    f = ["c19.run", US.join(["var", variant]), US.join(["dir", str(proj)])]
+    f = ["c19.run", US.join(["var", variant[0], variant[1]]), US.join(["dir", str(proj)])]
     for link, target in (("lnk", "real"), ("proj/outlink", "real/o2"), ("proj/srclink", "real/rsrc")):
         f.append(US.join(["link", str(W / link), str(W / target)]))
     f.append(US.join(["out", opts["output_dir"]]))
@@ -966,6 +1137,7 @@ def model_request(variant, scn, lay, pre, site, tables, oldlinks=()):
         if toks is not None:
             f.append(US.join(["media"] + toks))
     f += site or []
+    f += pin or []
     return f
 
 
@@ -1109,6 +1281,172 @@ def micro_guard(ford, drv, rng, n, rep):
 
 
 # ----------------------------------------------------------------------------------------------
+# micro/pagetree: the real get_page_tree on generated page directories
+# ----------------------------------------------------------------------------------------------
+
+PT_DIRS = ["sub", "img", "deep", "a.b", "x", "notes"]
+PT_PAGES = ["q.md", "note.md", "a.b.md", "z.md", "old.md~", ".hidden.md", "UP.md"]
+PT_FILES = ["r.txt", "data.bin", "pic.png", "readme", "t.md.bak"]
+
+
+def gen_pagetree_case(rng: random.Random, root: Path) -> dict:
+    """A page directory <root>/p/pages on disk, with directories outside it (<root>/p/shared, <root>/ext: sections that
+    do not belong to it), symbolic links (to directories and page files outside / inside, dangling) and `ordered_subpage`
+    entries that are *paths*: names of the listing, nested `a/b`, `a/b.md`, with `..` staying inside, with `..` leaving
+    the page directory by one or more levels (naming directories, page files and plain files there), absolute paths
+    (inside and outside), entries going through a link, trailing `/`, `./x`, missing ones, duplicates, `index.md`.
+    Entries never name an ancestor of the directory that lists them and name a directory outside the own sub-tree only
+    if nothing below it has entries of its own (so that the recursion of get_page_tree ends)."""
+    pd = root / "p" / "pages"
+    outside = [root / "p" / "shared", root / "ext", root / "p" / "shared" / "inner"]
+    for d in outside:
+        d.mkdir(parents=True, exist_ok=True)
+        (d / "index.md").write_text(f"---\ntitle: {d.name}\n---\nx\n" if rng.random() < 0.9 else "no metadata\n")
+        (d / "install.md").write_text("---\ntitle: I\n---\nx\n")
+        (d / "data.txt").write_text("d")
+    dirs: list[tuple[Path, bool]] = []  # (directory, has entries of its own)
+
+    def make(d: Path, depth: int):
+        d.mkdir(parents=True, exist_ok=True)
+        orderer = rng.random() < (0.85 if depth == 0 else 0.45)
+        dirs.append((d, orderer))
+        for n in rng.sample(PT_PAGES, rng.randint(0, 3)):
+            (d / n).write_text(f"---\ntitle: {n}\n---\nx\n" if rng.random() < 0.9 else "---\nauthor: nobody\n---\nx\n")
+        for n in rng.sample(PT_FILES, rng.randint(0, 2)):
+            (d / n).write_text("f")
+        if depth < 2:
+            for n in rng.sample(PT_DIRS, rng.randint(0, 2 if depth else 3)):
+                make(d / n, depth + 1)
+        r = rng.random()
+        if r < 0.35:
+            t = rng.choice(outside)
+            os.symlink(os.path.relpath(t, d) if rng.random() < 0.5 else str(t), d / rng.choice(["guide", "lnk", "common.d"]))
+        if rng.random() < 0.2:
+            os.symlink(os.path.relpath(rng.choice(outside) / "install.md", d), d / "linked.md")
+        if rng.random() < 0.1:
+            os.symlink("nowhere/at/all", d / rng.choice(["gone", "gone.md"]))
+
+    make(pd, 0)
+    plain_ok = {str(d) for d, _o in dirs if not any(o2 for d2, o2 in dirs if under(str(d2), d))} | {str(d) for d in outside}
+    metas = {}
+    for d, orderer in dirs:
+        children = sorted(os.listdir(d))
+        subdirs = [c for c in children if (d / c).is_dir()]
+        entries: list[str] = []
+        if orderer:
+            cands = list(children) + ["index.md", "nosuch", "nosuch.md", "./" + (children[0] if children else "x")]
+            for c in subdirs:
+                sub = sorted(os.listdir(d / c))
+                cands += [c + "/" + x for x in sub] + [c + "/", c + "//" + (sub[0] if sub else "index.md")]
+                # `..` that stays inside / leaves this directory / leaves the page directory
+                for t, _o in dirs:
+                    cands.append(c + "/../" + os.path.relpath(t, d))
+                for t in outside:
+                    rel = os.path.relpath(t, d)
+                    cands += [c + "/../" + rel, c + "/../" + rel + "/install.md", c + "/../" + rel + "/data.txt"]
+            for t in outside:
+                cands += [str(t), str(t / "install.md")]
+            cands += [str(rng.choice(dirs)[0]), str(pd / "nosuch")]
+            for _ in range(rng.randint(1, 5)):
+                e = rng.choice(cands)
+                t = os.path.realpath(os.path.join(d, e))
+                if os.path.isdir(t):
+                    if under(os.path.realpath(d), t):
+                        continue  # an ancestor (or the directory itself): get_page_tree would not terminate
+                    if not under(t, os.path.realpath(d)) and t not in plain_ok:
+                        continue
+                entries.append(e)
+        copy = [rng.choice(subdirs + ["img", "nosuchdir"])] if rng.random() < 0.3 else []
+        metas[str(d)] = (entries, copy)
+        idx = d / "index.md"
+        if d == pd or rng.random() < 0.9:
+            lines = ["---", "title: " + d.name]
+            if entries:
+                lines.append("ordered_subpage: " + entries[0])
+                lines += ["    " + e for e in entries[1:]]
+            if copy:
+                lines.append("copy_subdir: " + copy[0])
+            idx.write_text("\n".join(lines + ["---", "text", ""]))
+    return {"page_dir": str(pd), "out_dir": str(root / "p" / "out" / "doc"), "entries": {k: v[0] for k, v in metas.items() if v[0]}}
+
+
+def micro_pagetree(ford, drv, rng, n, rep, hist):
+    """The page tree in isolation: the real `get_page_tree` (real `PageNode`s, real Markdown reader) on generated page
+    directories whose `ordered_subpage` entries are paths and which contain symbolic links.
+      correspondence : (location, output stem, copy_subdir, files) of every node, in order == the model's `pageTree`
+                       computed from the directory (variant decided by which of the two the code agrees with);
+      oracle         : (from the property statement) every page is placed inside the output directory:
+                       <output_dir>/page/<location> normalises to a path below <output_dir>."""
+    import ford.pagetree as pt
+    from ford._markdown import MetaMarkdown
+
+    bad = fails = evals = 0
+    reqs, cases = [], []
+    reported: dict = {}
+    with common.scratch_dir("ford-c19-pt-") as base:
+        base = Path(os.path.realpath(base))
+        md = MetaMarkdown(".", base_url="..")
+        for k in range(n):
+            root = base / f"c{k}"
+            case = gen_pagetree_case(random.Random(rng.randrange(1 << 30)), root)
+            pd, O = case["page_dir"], case["out_dir"]
+            proj_copy = [str(root / "p" / "media")] if k % 5 == 0 else []
+            fields, orders = page_input(root, pd, proj_copy, [])
+            try:
+                with common.quiet():
+                    tree = pt.get_page_tree(Path(pd), [Path(x) for x in proj_copy], Path(O), md)
+                nodes = [] if tree is None else [[loc_key(x.location), x.filename.stem, [str(c) for c in x.copy_subdir], [str(f) for f in x.files]]
+                                                 for x in tree]
+            except RecursionError:
+                continue
+            except Exception as e:  # noqa
+                rep.tie_broken(f"micro/pagetree: get_page_tree raised {type(e).__name__}: {e}", case)
+                bad += 1
+                continue
+            case["listing"] = sorted(os.path.relpath(os.path.join(dp, f), root) + (" -> " + os.readlink(os.path.join(dp, f)) if os.path.islink(os.path.join(dp, f)) else "")
+                                     for dp, dn, fn in os.walk(root) for f in dn + fn)[:80]
+            case["orders"] = orders
+            reqs.append(["c19.pages"] + fields)
+            cases.append((case, nodes))
+        got = drv.batch(reqs)
+    for (case, nodes), g in zip(cases, got):
+        evals += 1
+        impl = [US.join([a, b, RS.join(c), RS.join(d)]) for a, b, c, d in nodes]
+        cut = g.index("--") if "--" in g else len(g)
+        as_is, guarded = g[1:cut], g[cut + 1:]
+        case = dict(case, stream="micro/pagetree", pages=[[a, b] for a, b, _c, _d in nodes])
+        nent = sum(len(v) for v in case["entries"].values())
+        hist["pagetree: entries " + ("0" if nent == 0 else "1-3" if nent <= 3 else "4+")] = hist.get("pagetree: entries " + ("0" if nent == 0 else "1-3" if nent <= 3 else "4+"), 0) + 1
+        if impl == guarded and guarded != as_is:
+            hist["pagetree: variant guarded"] = hist.get("pagetree: variant guarded", 0) + 1
+        elif impl == as_is and guarded != as_is:
+            hist["pagetree: variant unguarded"] = hist.get("pagetree: variant unguarded", 0) + 1
+        elif impl != as_is:
+            bad += 1
+            if bad <= 3:
+                dif = next((i for i, (a, b) in enumerate(zip(impl, as_is)) if a != b), min(len(impl), len(as_is)))
+                rep.tie_broken(f"correspondence micro/pagetree: page tree differs at node {dif}: implementation "
+                               f"{[x.split(US) for x in impl[dif:dif + 2]]} vs model {[x.split(US) for x in as_is[dif:dif + 2]]} "
+                               f"(page_dir {case['page_dir']}, entries {case['entries']})", dict(case, impl=impl, model=as_is))
+        O, pd = case["out_dir"], case["page_dir"]
+        regions = subpage_escape_regions(case["orders"], pd, O)
+        outside = [(loc, stem) for loc, stem, _c, _f in nodes if not under(os.path.normpath(os.path.join(O, "page", loc)), O)]
+        if outside:
+            fails += 1
+            hist["pagetree: page placed outside"] = hist.get("pagetree: page placed outside", 0) + 1
+            by_cls: dict = {}
+            for loc, stem in outside:
+                t = os.path.normpath(os.path.join(O, "page", loc))
+                cls = FINDING_SUBPAGE if any(under(t, r) for r in regions) else None
+                by_cls.setdefault(cls, []).append({"why": f"page {stem!r} with location {loc!r} is written to {t}, outside the output directory {O}"})
+            for cls, fs_ in by_cls.items():
+                reported[cls] = reported.get(cls, 0) + 1
+                if reported[cls] <= 3:  # leave room in the replay file for the scenario runs
+                    rep.failing_input(dict(case, failures=fs_[:5]), cls)
+    return evals, bad, fails
+
+
+# ----------------------------------------------------------------------------------------------
 # main
 # ----------------------------------------------------------------------------------------------
 
@@ -1148,6 +1486,10 @@ def run(tier: str, seed: int, replay: str | None = None) -> int:
     ev_guard, bad_guard, fail_guard = micro_guard(ford, drv, random.Random(seed * 104729 + 7), 400 if tier == "quick" else 6000, rep)
     ev_micro += ev_guard
     bad_micro += bad_guard
+    pt_hist: dict = {}
+    ev_pt, bad_pt, fail_pt = micro_pagetree(ford, drv, random.Random(seed * 15485863 + 3), 80 if tier == "quick" else 3000, rep, pt_hist)
+    ev_micro += ev_pt
+    bad_micro += bad_pt
 
     if replay:
         data = json.loads(Path(replay).read_text())
@@ -1226,7 +1568,7 @@ def run(tier: str, seed: int, replay: str | None = None) -> int:
         fault_runs = []
         cands = [r for r in runs if not r["scn"].get("regen") and r["scn"]["out"] not in REFUSING and r["res"]["exc"] is None]
         cands.sort(key=lambda r: -len(r["rec"].events))
-        budget_s = 35 if tier == "quick" else 900
+        budget_s = 30 if tier == "quick" else 900
         t_f = time.time()
         picks = cands[:1] + [c for c in cands if c["scn"]["pages"] in ("escape", "simple")][:2] if cands else []
         seen_ids = set()
@@ -1265,8 +1607,9 @@ def run(tier: str, seed: int, replay: str | None = None) -> int:
         # ---- model
         allruns = runs + fault_runs
         answers = drv.batch([q for r in allruns for q in r["reqs"]])
+        nv = len(VARIANTS)
         for i, r in enumerate(allruns):
-            r["model"] = {"repaired": answers[2 * i], "asIs": answers[2 * i + 1]}
+            r["model"] = answers[nv * i:nv * i + nv]
         phase["model"] = round(time.time() - t_start, 1)
         # ---- compare + oracle
         for r in allruns:
@@ -1292,7 +1635,8 @@ def run(tier: str, seed: int, replay: str | None = None) -> int:
                     distinct.add(common.digest([scn["out"], scn["gdir"], scn["pages"], scn.get("regen", {}).get("plan"), real and [x.replace(str(lay["sb"]), "") for x in real]]))
             case = slim(scn, lay, {"fault_at": r.get("fault_at"), "exception": res["exc"]})
             # (a) correspondence
-            m_rep, m_asis = r["model"]["repaired"], r["model"]["asIs"]
+            models = r["model"]
+            m_asis = models[-1]  # no guard at all: its attempts include those of the other variants
             mO, mG = m_asis[1], m_asis[2]
             if mO != str(lay["O"]) or (mG if mG != "-" else None) != (str(lay["G"]) if lay["G"] else None):
                 n_corr_bad += 1
@@ -1302,6 +1646,9 @@ def run(tier: str, seed: int, replay: str | None = None) -> int:
                 n_corr_bad += 1
                 rep.tie_broken(f"normalise_paths: output_dir={st.output_dir} graph_dir={st.graph_dir} differ from the physical "
                                f"paths {lay['O']} {lay['G']}", case)
+            if st is not None and lay.get("page_dir") and str(st.page_dir) != lay["page_dir"]:
+                n_corr_bad += 1
+                rep.tie_broken(f"normalise_paths: page_dir={st.page_dir} differs from the physical path {lay['page_dir']}", case)
             if not is_fault:
                 refused_real = res["exc"] is not None and res["phase"] == "settings"
                 if (m_asis[0] == "refused") != refused_real:
@@ -1310,19 +1657,28 @@ def run(tier: str, seed: int, replay: str | None = None) -> int:
                 if res["exc"] is not None and not refused_real:
                     # an unexpected crash of the real run: not a model question, report for the oracle below
                     case["unexpected_exception"] = res.get("trace", res["exc"])
-                mp_rep = sort_utime_runs(m_rep[4:])
-                mp_asis = sort_utime_runs(m_asis[4:])
-                if res["exc"] is None or refused_real:
-                    if real == mp_rep:
-                        variant_seen.add("repaired" if mp_rep != mp_asis else "both")
-                    elif real == mp_asis:
-                        variant_seen.add("asIs")
+                mps = [sort_utime_runs(m[4:]) for m in models]
+                crashed = res["exc"] is not None and not refused_real
+                # a run that ends with an exception inside the write-out (e.g. `mkdir` of a page directory whose parent
+                # has not been created) must have made a prefix of the attempts of the model's run
+                hit = [i for i, mp in enumerate(mps) if (real == mp[:len(real)] if crashed else real == mp)]
+                if hit:
+                    if crashed:
+                        hist["outcome"]["error: attempts are a prefix of the model's"] = \
+                            hist["outcome"].get("error: attempts are a prefix of the model's", 0) + 1
                     else:
-                        n_corr_bad += 1
-                        dif = next((i for i, (a, b) in enumerate(zip(real, mp_asis)) if a != b), min(len(real), len(mp_asis)))
-                        rep.tie_broken(f"correspondence trace: scenario {scn['id']} differs at attempt {dif}: implementation "
-                                       f"{real[dif:dif + 2]} vs model {mp_asis[dif:dif + 2]} (lengths {len(real)}/{len(mp_asis)})",
-                                       dict(case, impl=real[max(0, dif - 3):dif + 4], model=mp_asis[max(0, dif - 3):dif + 4]))
+                        if mps[1] != mps[2]:
+                            variant_seen.add("copy_subdir: " + ("unguarded" if 2 in hit else "guarded"))
+                        if mps[0] != mps[1]:
+                            variant_seen.add("ordered_subpage: " + ("guarded" if 0 in hit else "unguarded"))
+                else:
+                    n_corr_bad += 1
+                    mp = mps[1] if len(mps) > 1 else mps[0]
+                    dif = next((i for i, (a, b) in enumerate(zip(real, mp)) if a != b), min(len(real), len(mp)))
+                    rep.tie_broken(f"correspondence trace: scenario {scn['id']} differs at attempt {dif}: implementation "
+                                   f"{real[dif:dif + 2]} vs model {mp[dif:dif + 2]} (lengths {len(real)}/{len(mp)})",
+                                   dict(case, impl=real[max(0, dif - 3):dif + 4], model=mp[max(0, dif - 3):dif + 4],
+                                        pages_of_the_run=res.get("pages")))
                 if len(samples) < 3 and scn["pages"] != "none" and real:
                     samples.append({"scenario": scn, "n_attempts": len(real), "first": real[:4], "last": real[-3:]})
             else:
@@ -1351,8 +1707,9 @@ def run(tier: str, seed: int, replay: str | None = None) -> int:
         samples=samples,
         traces_validated_against_impl=n_runs + n_fault_runs + ev_micro,
         correspondence_disagreements=n_corr_bad + bad_micro,
-        oracle_failures=n_oracle_fail + fail_guard,
+        oracle_failures=n_oracle_fail + fail_guard + fail_pt,
         guard_micro_cases=ev_guard,
+        pagetree_micro_cases=ev_pt, pagetree_micro_histogram=pt_hist,
         scenario_runs=n_runs, fault_injection_runs=n_fault_runs,
         variant_decided=sorted(variant_seen),
         phase_seconds_cumulative=phase,
